@@ -170,19 +170,29 @@ def parse_state_body(body: str) -> dict:
     return st
 
 
-def iter_dump_states(path: str):
-    """Yield one dict per state of a TLC '-dump' file."""
+def iter_dump_states(path: str, must_contain: str | None = None):
+    """Yield one dict per state of a TLC '-dump' file (optionally only the states whose text contains a marker)."""
     buf = []
+
+    def flush():
+        txt = "".join(buf)
+        if must_contain is None or must_contain in txt:
+            return parse_state_body(txt)
+        return None
     with open(path) as f:
         for line in f:
             if line.startswith("State ") and line.rstrip().endswith(":"):
                 if buf:
-                    yield parse_state_body("".join(buf))
+                    st = flush()
+                    if st is not None:
+                        yield st
                 buf = []
             elif line.strip():
                 buf.append(line)
     if buf:
-        yield parse_state_body("".join(buf))
+        st = flush()
+        if st is not None:
+            yield st
 
 
 def parse_behaviour_file(path: str):
